@@ -104,6 +104,7 @@ static std::string oracle(const Case& c) {
         if (!m.empty()) { Case f = c; f.set("kind", "one"); f.set("L", (uint64_t)L); f.set("keep", keep); f.set("composed", comp ? 1 : 0); f.set("suffix", hex(suffix)); f.set("token", hex(tok)); if (lka && L < nl && lr.noaccent) f.set("signature", "C08:prefix-last-letter-keeps-accent"); record_failure(f, m, "fail"); }
         return m;
     };
+    if (kind == "token") { std::string tok = c.bytes("token"); std::string m = judge(*le, r, lr, toks, 1, tok, coin, base_img, word, &cls); ev.eval(); return m; }
     if (kind == "one") { std::string m = run_one((size_t)c.u("L"), (unsigned)c.u("keep"), c.u("composed") != 0, c.bytes("suffix")); ev.eval(); return m; }
     for (size_t L = 1; L <= nl; L++) {
         unsigned nm = marks_in_prefix(word, L); unsigned combos = 1u << (nm > 5 ? 5 : nm);
@@ -118,6 +119,27 @@ static std::string oracle(const Case& c) {
         if (L >= 3 || L == nl) {
             auto cps = model::codepoints(model::strip_marks(word)); uint32_t nextc = L < cps.size() ? cps[L] : 0;
             for (const char* sfx : {"a", "x", "e", "z"}) { if (nextc == (uint32_t)sfx[0]) continue; std::string m = run_one(L, ~0u, false, sfx); if (!m.empty()) return m; }
+        }
+    }
+    // decorated tokens: characters the word does not have.  Extra combining marks are "accents" (ignored in Spanish/French only);
+    // other non-ASCII characters are tried in the languages that are not accent-blind (see DESIGN section 5 for es/fr).
+    {
+        auto run_tok = [&](const std::string& tok, const char* klass) -> std::string {
+            std::string m = judge(*le, r, lr, toks, 1, tok, coin, base_img, word, &cls); n++; ev.count(cls); ev.count(klass);
+            if (tok != word) { ev.nontrivial++; ev.fps.insert(fnv1a(le->name_en + "/" + tok + "/" + word)); }
+            if (!m.empty()) { Case f = c; f.set("kind", "token"); f.set("token", hex(tok)); record_failure(f, m, "fail"); }
+            return m;
+        };
+        auto cps = model::codepoints(word); std::vector<std::string> deco;
+        for (uint32_t mark : {0x301u, 0x308u, 0x327u}) {
+            { auto v = cps; v.insert(v.begin() + 1, mark); deco.push_back(model::utf8(v)); deco.push_back(model::nfc(model::utf8(v))); }                 // accent after the first letter
+            { auto v = cps; v.push_back(mark); deco.push_back(model::utf8(v)); }                                                                              // accent after the last letter
+            if (nl > 4) { std::string pre = variant(word, 4, ~0u, false, ""); deco.push_back(pre + model::utf8(mark)); deco.push_back(model::nfc(pre + model::utf8(mark))); }   // abbreviated + accent
+        }
+        for (auto& d : deco) { std::string m = run_tok(d, "class:decorated-with-combining-mark"); if (!m.empty()) return m; }
+        if (!lr.noaccent) {
+            std::vector<std::string> foreign = {word + "\xe7\x9a\x84", "\xe2\x80\x8b" + word, word + "\xc2\xb7", "\xc3\x86" + word, (nl > 4 ? variant(word, 4, ~0u, false, "") : word) + "\xc3\xb8"};
+            for (auto& d : foreign) { std::string m = run_tok(d, "class:decorated-with-foreign-character"); if (!m.empty()) return m; }
         }
     }
     (void)nm_all;
